@@ -76,7 +76,14 @@ pub enum Op {
     Freeze { m: usize, dst: usize, collect: bool },
     DropMut { m: usize },
     NewGen { m: usize },
-    Rollback { m: usize },
+    /// Drop the newest generation. `quiet`: the owner of the older generation does not look at its
+    /// state afterwards (no lookup that would make it forget the abandoned generation) - the next
+    /// operation meets the trie as the failed call left it.
+    Rollback {
+        m:     usize,
+        #[serde(default)]
+        quiet: bool,
+    },
     Insert {
         m:   usize,
         #[serde(with = "hexser::bytes")]
@@ -595,10 +602,40 @@ pub fn generate(rng: &mut Rng, tier: Tier, focus: Focus, faults: bool) -> TriePl
                 let m = *rng.pick(&live_muts);
                 let ms = sh.muts[m].as_mut().unwrap();
                 if ms.gens > 1 && (rng.coin() || ms.gens >= 5) {
-                    ops.push(Op::Rollback { m });
+                    let quiet = rng.chance(2, 5);
+                    ops.push(Op::Rollback { m, quiet });
                     ms.gens -= 1;
                     ms.handles.pop();
                     ms.iters.pop();
+                    if quiet && rng.chance(2, 3) {
+                        // the very next thing: another call on the same state, or the end of the transaction
+                        if rng.chance(2, 3) {
+                            ops.push(Op::NewGen { m });
+                            ms.gens += 1;
+                            ms.handles.push(0);
+                            ms.iters.push(0);
+                        } else {
+                            let dst = rng.usize_below(NROOTS);
+                            ops.push(Op::Freeze {
+                                m,
+                                dst,
+                                collect: rng.coin(),
+                            });
+                            sh.roots[dst] = true;
+                            sh.stored[dst] = false;
+                            let low = sh.muts[m].as_ref().map_or(false, |x| x.low);
+                            if low {
+                                sh.muts[m] = None;
+                            } else {
+                                sh.muts[m] = Some(MutShadow {
+                                    gens: 1,
+                                    handles: vec![0],
+                                    iters: vec![0],
+                                    low,
+                                });
+                            }
+                        }
+                    }
                 } else {
                     ops.push(Op::NewGen { m });
                     ms.gens += 1;
